@@ -35,7 +35,18 @@ def tasks(tier):
     for relpath, fname in kernel_list():
         if 'precalc' not in fname:
             ts.append(Task('props.C04:t_kernel_abs', name='C04/kernel-abs.' + fname, relpath=relpath, fname=fname, timeout=900))
+    for nm, kw in (('remove_pop.2D.1', dict(K=2, popnum=1)), ('remove_pop.3D.2', dict(K=3, popnum=2)), ('filter_pops.4D.2', dict(K=4, tokeep=[2]))):
+        ts.append(Task('props.C04:t_marginal', name='C04/wire.' + nm, kw=kw, timeout=600))
     return ts + bounded_tasks('C04', tier)
+
+
+def t_marginal(kw):
+    """marginalisation is the trapezoid rule along the removed axes and keeps the trapezoid mass (same contract as C06 remove/filter)"""
+    from contracts import py_wiring as W
+    rs = W.c06_remove_filter(**kw)
+    for r in rs:
+        r['id'] = r['id'].replace('C06/', 'C04/', 1)
+    return rs
 
 
 def t_kernel_abs(relpath, fname):
